@@ -30,6 +30,11 @@ class HarnessError(Exception):
     pass
 
 
+import re as _re  # noqa: E402
+
+SIM_GAP = _re.compile(r"'(Sim|Fake|Net|Counting)\w*' object has no attribute|(Sim|Fake)\w+\.\w+\(\) (got an unexpected|takes|missing)")
+
+
 class Obs:
     """Outcome of one executed case."""
 
@@ -130,6 +135,10 @@ class Collector:
         """Count hits of already known / already found buckets. Returns list of new fails."""
         new = []
         for bucket, msg in obs.fails:
+            if SIM_GAP.search(str(msg)) or SIM_GAP.search(bucket):
+                # the code under test asked the simulated environment for something it does not model:
+                # that is a limitation of the harness (exit 2), not a verdict about the property
+                raise HarnessError(f"simulation gap: {bucket} :: {msg}")
             k = self.known.match(bucket)
             if k is not None:
                 h = self.known_hits.setdefault(k, {"count": 0, "case": case, "bucket": bucket, "msg": msg})
